@@ -443,6 +443,12 @@ def make_cell(run, arms, variant, tags, mode):
     h = Harness(name, body, unwind=spec.unwind, stubs=stubs, heavy=heavy, cell=name, meta=meta,
                 native_body=native, abstract=bool(kexp))
     h.spec = spec
+    if mode == "c01" and spec.kexp and "Decimal" in tags:
+        # rust_decimal's real code (scale 0): minutes per cell -> thorough tier only, never mandatory
+        import copy
+        h.spec = copy.copy(spec)
+        h.spec.quick = False
+        h.mandatory = False
     h.variant, h.tags = variant, tuple(tags)
     return h
 
@@ -572,8 +578,9 @@ def scale0_cells(run, arms, mode):
         std::mem::forget(r);""", unwind=2, heavy=True, mandatory=False,
                     meta={"node": "Mult", "function": arm["fn"], "class": "supported",
                           "note": "rust_decimal's real multiplication at scale 0, 96-bit mantissas: no panic, Decimal or out-of-bounds error"})
-        h.variant, h.tags, h.spec = "Mult", ("Decimal", "Decimal"), Spec("")
+        h.variant, h.tags, h.spec = "Mult", ("Decimal", "Decimal"), Spec("", quick=False)
         hs.append(h)
+        hs += decimal_checked_cells(run, arms)
     for variant, expr in (("Add", "ma + mb"), ("Sub", "ma - mb")):
         arm = arms[variant]
         order = arg_order(arm, 2)
@@ -593,7 +600,7 @@ def scale0_cells(run, arms, mode):
         h = Harness(f"{mode}_{variant}_Decimal_Decimal_scale0_real", body, unwind=2, heavy=True, mandatory=False,
                     meta={"node": variant, "function": arm["fn"], "operands": {"a": "Decimal scale 0, 96-bit mantissa", "b": "same"},
                           "class": "supported", "note": "rust_decimal's real code (no stub) against i128 mantissa arithmetic"})
-        h.variant, h.tags, h.spec = variant, ("Decimal", "Decimal"), Spec(full, quick=(mode == "c01"))
+        h.variant, h.tags, h.spec = variant, ("Decimal", "Decimal"), Spec(full, quick=False)
         hs.append(h)
     for variant in ("GreaterThan", "LessThanEquals"):
         arm = arms[variant]
@@ -775,4 +782,40 @@ def int_arith_cells(run, arms, mode):
         assert!(match a.checked_mul(b) {{ Some(v) => ok_int(&r, v), None => err_oob(&r) }});
         std::mem::forget(r);""", heavy=True, quick=quick, mandatory=quick, variant="Mult",
             note="right operand restricted to 32 bits" if quick else "full 128x128-bit multiply")
+    return hs
+
+
+def decimal_checked_cells(run, arms):
+    """C01, quick: Decimal + - * / % must go through an operation of rust_decimal that cannot panic. The recorders
+    tell which entry point the operator function uses; the operator traits (`+ - * / %`) panic on overflow / zero
+    divisor by rust_decimal's documentation. The native replay uses the extreme operands that make them panic."""
+    hs = []
+    ext = {"Add": ("Decimal::MAX", "Decimal::MAX"), "Sub": ("Decimal::MIN", "Decimal::MAX"), "Mult": ("Decimal::MAX", "Decimal::MAX"),
+           "Div": ("Decimal::MAX", "Decimal::ZERO"), "Rem": ("Decimal::MAX", "Decimal::ZERO")}
+    for variant in ("Add", "Sub", "Mult", "Div", "Rem"):
+        arm = arms[variant]
+        order = arg_order(arm, 2)
+        vals = ["Value::Decimal(a)", "Value::Decimal(b)"]
+        args = ", ".join(vals[order[i]] for i in range(2))
+        body = f"""
+        let a = any_decimal(inp); let b = any_decimal(inp);
+        {PRE_DRAW}
+        let r = {arm['fn']}({args});
+        assert!(rec_n() == 1 && rec_kind() < 10);
+        assert!(matches!(&r, Ok(Value::Decimal(_))) || is_err(&r));
+        std::mem::forget(r);"""
+        native = f"""
+        let a = any_decimal(inp); let b = any_decimal(inp);
+        {PRE_DRAW}
+        let (a, b) = ({ext[variant][0]}, {ext[variant][1]});
+        let r = {arm['fn']}({args});
+        show("a", &a); show("b", &b); show("result", &r);
+        assert!(is_err(&r));
+        std::mem::forget(r);"""
+        h = Harness(f"c01_{variant}_Decimal_Decimal_checked", body, stubs=DEC_ALL_ARITH_STUBS, native_body=native, abstract=True,
+                    meta={"node": variant, "function": arm["fn"], "class": "supported",
+                          "note": "recorders: the operator function must use rust_decimal's checked_* entry point (the operator traits panic on "
+                                  "overflow / zero divisor); replayed natively on the extreme operands"})
+        h.variant, h.tags, h.spec = variant, ("Decimal", "Decimal"), Spec("")
+        hs.append(h)
     return hs
